@@ -4,7 +4,8 @@
 WS=$1; D=$(cd "$2" && pwd); ID=$3; TIER=${4:-quick}
 W=/tmp/hw/$WS
 [ -d $W ] || /verif/tools/mkwork.sh $WS >/dev/null 2>&1
-rsync -a --delete /verif/harness/src/ $W/src/
+SRC=${VCHECK_SRC:-/verif/harness/src}; [ -z "$VCHECK_SRC" ] && [ -d /tmp/hw/src_frozen ] && SRC=/tmp/hw/src_frozen   # a frozen copy lets long batches run while the sources are edited
+rsync -a --delete $SRC/ $W/src/
 rsync -a --delete /verif/regress/ $W/root/regress/
 cp /verif/known_findings.json $W/root/
 rm -rf $W/repo_mut.tmp; git -C /repo worktree prune; rsync -a --delete --exclude target --exclude .git /tmp/repo_fixed/ $W/repo_mut/   # /tmp/repo_fixed has the same tree as /repo HEAD (checked with diff -r); /repo itself may have a seed applied by an official run
